@@ -106,6 +106,7 @@ eval(struct expr *expr)
 	struct expr *l, *r, *c;
 	struct decl *d;
 	struct type *t;
+	bool b;
 
 	t = expr->type;
 	switch (expr->kind) {
@@ -214,13 +215,19 @@ eval(struct expr *expr)
 			}
 			break;
 		case TLOR:
-			if (l->kind != EXPRCONST)
-				break;
-			return l->u.constant.u ? l : r;
 		case TLAND:
 			if (l->kind != EXPRCONST)
 				break;
-			return l->u.constant.u ? r : l;
+			b = l->type->prop & PROPFLOAT ? l->u.constant.f != 0 : l->u.constant.u != 0;
+			if (b == (expr->op == TLAND)) {
+				/* the result is determined by the right operand */
+				if (r->kind != EXPRCONST)
+					break;
+				b = r->type->prop & PROPFLOAT ? r->u.constant.f != 0 : r->u.constant.u != 0;
+			}
+			expr->kind = EXPRCONST;
+			expr->u.constant.u = b;
+			break;
 		default:
 			if (l->kind != EXPRCONST || r->kind != EXPRCONST)
 				break;
